@@ -367,6 +367,7 @@ func (rp *ResourcePool) ScaleCapacity(capacity int) error {
 			rp.lock.Unlock()
 			return nil
 		}
+		verifStep("scale.beforeCAS")
 		if rp.capacity.CompareAndSwap(int64(oldcap), int64(capacity)) {
 			break
 		}
